@@ -30,6 +30,7 @@ def sched_jobs(tier, seed, gen=None, selections=False, faults=False, fault_rate=
                dfs_faults=False, scale=1.0, dfs_gen=None, flavour="both"):
     gen = dict(gen or {})
     gen.setdefault("tag_rate", 0.25)  # decorator-level tags (shared / spelled like another node's id) + configuration by tag
+    gen.setdefault("debug_rate", 0.1)  # debug sinks, run with RUN_DEBUG_NODES on (whole-DAG calls)
     gen.setdefault("nest_rate", 0.15)  # a block of call sites written as an inner DAG (prefixed ids), same clauses
     jobs = []
     if tier == "quick":
